@@ -17,6 +17,7 @@ carried by the correspondence and the byte-level oracle of props/c01.py, see `le
 import Pyc.Proofs.NumText
 import Pyc.Proofs.Float32Grid
 import Pyc.Proofs.Dec7Grid
+import Pyc.Proofs.NumSound
 import Pyc.Proofs.Sync
 import Pyc.Model.NumText
 import Pyc.Model.SaveMachine
@@ -124,6 +125,11 @@ theorem float32_text_and_value_fixed {E E' : ℚ → Prop} {x a b : ℚ} (hx32 :
   ⟨dec7_text_fixed_point hx32 hx h0 hp (fun y hy => by
       have := hb.2.1 y hy
       exact this), hb⟩
+
+/-- the executable recognisers the correspondence runs against numpy are sound for the sets of the theorems above -/
+theorem isBin24_sound {b : ℚ} (h : Pyc.NumText.isBin24 b = true) : IsF32 b := Pyc.NumTextP.isBin24_sound h
+
+theorem isDec7_sound {a : ℚ} (h : Pyc.NumText.isDec7 a = true) : IsDec7 a := Pyc.NumTextP.isDec7_sound h
 
 /-- non-vacuity: 0.3333333 = 3333333·10^-7 is an interior seven-digit decimal -/
 example : DInterior 3333333 (-7) := ⟨by norm_num, by norm_num⟩
